@@ -133,7 +133,7 @@ func init() {
 		sizes := parseIntsC(c.P("sizes", "1,5000,40000"))
 		var rig *e2eRig
 		sc := &vrt.Scenario{
-			Opt:      vrt.Options{Delay: c.P("delay", "1") == "1", HorizonNs: int64(300 * time.Second), RandInt: extremeDraws(c.P("draws", "prf"))},
+			Opt:      vrt.Options{Delay: c.P("delay", "1") == "1", HorizonNs: int64(300 * time.Second), RandInt: extremeDraws(c.P("draws", "prf")), MemVars: true, MemPoints: c.P("mem", "0") == "1"},
 			Classify: deadlockIs("no-deadlock"),
 			Main: func() {
 				uid := uidOf(0)
@@ -418,6 +418,8 @@ func init() {
 		// concurrent handshakes with recycling pools: of one session's connections, and of two clients in one process
 		add(map[bool]int{true: 1, false: 2}[q], "browser", "firefox", "sizes", "1", "numconn", "2", "ending", "client-close", "pool", "recycle")
 		add(map[bool]int{true: 2, false: 3}[q], "browser", "firefox", "sizes", "1", "numconn", "1", "ending", "client-close", "pool", "recycle", "second", "other.example.net", "servername", "example.com")
+		// the handshakes of one session's connections interleaved at every unsynchronised write as well
+		add(map[bool]int{true: 1, false: 2}[q], "browser", "firefox", "sizes", "1", "numconn", "2", "ending", "client-close", "mem", "1")
 		// a write that times out half-way (every write position of the first connection)
 		for _, k := range []string{"2", "3", "4"} {
 			add(map[bool]int{true: 0, false: 1}[q], "browser", "firefox", "sizes", "1,300", "numconn", "2", "ending", "client-close", "partial", k)
@@ -426,6 +428,7 @@ func init() {
 			jobs = append(jobs, vx.Job{Scenario: "wire.hellos", Params: vx.P("clients", "2", "browser", br, "pool", "recycle"), Bound: map[bool]int{true: 2, false: 3}[q], BudgetS: map[bool]int{true: 100, false: 900}[q], Weight: 4})
 		}
 		jobs = append(jobs, vx.Job{Scenario: "wire.udp", Weight: 6})
+		jobs = append(jobs, vx.Job{Scenario: "wire.names", Weight: 1})
 		add(map[bool]int{true: 1, false: 2}[q], "browser", "firefox", "sizes", "1", "numconn", "1", "ending", "client-close")
 		add(map[bool]int{true: 1, false: 2}[q], "browser", "firefox", "sizes", "1", "numconn", "1", "ending", "server-close")
 		return jobs
